@@ -292,7 +292,7 @@ class Check:
         'laplace_imp': ('dload',), 'rlc_coeffs': ('dload',), 'trap_coeffs': ('dload',), 'ins_zins': ('dload',), 'ins_half': ('dload',),
         'r_equiv': ('dload',), 'skin_zint': ('dload',), 'cond_of_res': ('dload',), 'medium_imp': ('ff', 'dload'),
         'ff_k9': ('ff',), 'ff_f3': ('ff',), 'ff_theta': ('ff',), 'ff_phi': ('ff',), 'ff_t1': ('ff',), 'ff_t2': ('ff',), 'ff_t3': ('ff',),
-        'ff_above': ('ff',), 'ff_db': ('ff',), 'ff_rat': ('ff',), 'ffp_scale': ('ff',), 'angle_deg': ('grid',), 'grid_axis': ('grid',),
+        'ff_above': ('ff',), 'ff_db': ('ff',), 'ff_rat': ('ff',), 'ffp_scale': ('ff',), 'angle_deg': ('grid',), 'grid_axis': ('grid',), 'gnd_flags': ('topo', 'zmat', 'junc', 'addr', 'nf'),
     }
 
     def finish(self):
